@@ -84,14 +84,15 @@ pub struct C04;
 
 fn len_strategy(big: usize) -> impl Strategy<Value = usize> {
     prop_oneof![
-        2 => prop::sample::select(vec![0usize, 1, 2, 3]),
-        6 => 4usize..400,
-        3 => prop::sample::select(vec![65535usize, 65536, 65537]),
-        2 => (1usize..=4, 0usize..3).prop_map(|(k, d)| k * 65536 + d - 1),
-        2 => 400usize..20_000,
-        2 => (prop::sample::select(vec![128usize, 16384]), 0usize..80).prop_map(|(b, d)| b + d - 40),
+        6 => prop::sample::select(vec![0usize, 1, 2, 3]),
+        18 => 4usize..400,
+        9 => prop::sample::select(vec![65535usize, 65536, 65537]),
+        6 => (1usize..=4, 0usize..3).prop_map(|(k, d)| k * 65536 + d - 1),
+        6 => 400usize..20_000,
+        6 => (prop::sample::select(vec![128usize, 16384]), 0usize..80).prop_map(|(b, d)| b + d - 40),
+        // (weight 1 of ~60 below: a 2 MiB case costs about 100 small ones)
         1 => (0usize..80).prop_map(|d| (1usize << 21) + d - 60),
-        1 => (any::<u16>()).prop_map(move |s| pick(s, 20_000, big as u64) as usize),
+        3 => (any::<u16>()).prop_map(move |s| pick(s, 20_000, big as u64) as usize),
     ]
 }
 
@@ -113,7 +114,7 @@ impl Property for C04 {
         "C04"
     }
     fn cases(&self, tier: Tier) -> u32 {
-        tier.pick(30_000, 300_000)
+        tier.pick(20_000, 200_000)
     }
     fn strategy(&self, tier: Tier) -> BoxedStrategy<Case> {
         let big = tier.pick(300 << 10, 600 << 10);
@@ -154,7 +155,7 @@ impl Property for C04 {
             ("len:1", 50 * m),
             ("len:65535..65537", 300 * m),
             ("len:k*64KiB+-1", 200 * m),
-            ("len:~2MiB (4-byte index integers)", 100 * m),
+            ("len:~2MiB (4-byte index integers)", 50 * m),
             ("codec:lzma/marker", 500 * m),
             ("codec:lzma/size", 500 * m),
             ("codec:lzma/skip", 500 * m),
